@@ -175,6 +175,9 @@ pub struct ActorSpec {
     /// 3: channel stage fail,timeout  4: fail on base, timeout on channel stage  5: the reverse)
     #[serde(default)]
     pub cfg_order: u8,
+    /// virtual time `stopped()` takes (so that something that wrongly limits or races it shows)
+    #[serde(default)]
+    pub stopped_sleep: u64,
 }
 impl ActorSpec {
     /// mailbox bound the library really applies: only the builder entry points take it
@@ -203,6 +206,7 @@ impl Default for ActorSpec {
             stream: None,
             stopped_yields: 0,
             cfg_order: 0,
+            stopped_sleep: 0,
         }
     }
 }
